@@ -72,6 +72,15 @@ class Registry:
         self.lemmas[name] = l
         return l
 
+    def finite_check(self, name, fn, serves, what=''):
+        """an obligation family over a finite domain that is read from the
+        source on every run (literal call sites, signatures, shipped config
+        files) and decided by exhaustive enumeration.  fn() -> list of
+        dict(name=, ok=, note=)"""
+        self.finite_checks = getattr(self, 'finite_checks', dict())
+        self.finite_checks[name] = dict(name=name, fn=fn, serves=serves,
+                                        what=what)
+
     def define(self, sig, text):
         name, rest = sig.split('(')
         params = [p.strip() for p in rest.rstrip(')').split(',') if p.strip()]
